@@ -807,6 +807,11 @@ func c12Compare(cs *c12Case, obs *c12Obs, ans string) string {
 					return "model opened a file without the configured function"
 				}
 				opens = append(opens, fmt.Sprintf("%s:%s:%v", name(p[1]), p[2], p[4] == "1"))
+				if op.K == "gl" && p[2] == "rd" && p[4] == "1" {
+					// an un-redirected getline that walks the operands: the record comes from the LAST source touched (an earlier
+					// "stdin" in the same group is standard input found already drained by the `getline < "-"` scanner)
+					srcM = "file:" + name(p[1])
+				}
 			case "exec":
 				if p[2] == "1" {
 					mExecs = append(mExecs, name(p[1]))
@@ -998,6 +1003,22 @@ func c12Corpus() []c12Case {
 		}
 		for _, args := range [][]string{{}, {"-"}, {"", "-"}, {""}} {
 			cs := c12Case{Hook: true, ShellOK: true, Args: args, End: []c12Op{{K: "gf", N: "-"}}}
+			c12Flags(&cs, mask)
+			res = append(res, cs)
+		}
+	}
+	// getline < "-" drains standard input into its own scanner; operand "-" / default stdin reached afterwards is at EOF and the walk
+	// moves on (minimized past harness disagreement: the comparison took the drained stdin for the source of the record)
+	for mask := 0; mask < 8; mask++ {
+		for _, w := range []c12Case{
+			{Args: []string{"-", "in0"}, Begin: []c12Op{{K: "gf", N: "-", Form: 1}, {K: "gl"}, {K: "gl"}}},
+			{Args: []string{"-", "in0"}, Begin: []c12Op{{K: "gl"}, {K: "gf", N: "-", Form: 2}, {K: "gl"}, {K: "gl"}}},
+			{Args: []string{"", "-"}, Begin: []c12Op{{K: "gf", N: "-"}}, End: []c12Op{{K: "gf", N: "-"}, {K: "gl"}}},
+			{Args: []string{}, Begin: []c12Op{{K: "gf", N: "-"}, {K: "gl"}}},
+			{Args: []string{"in0", "-", "in2"}, Begin: []c12Op{{K: "gl"}, {K: "gf", N: "-"}, {K: "gl"}, {K: "gl"}}},
+		} {
+			cs := w
+			cs.Hook, cs.ShellOK = true, true
 			c12Flags(&cs, mask)
 			res = append(res, cs)
 		}
